@@ -74,7 +74,16 @@ Clear == /\ Len(hist) < MaxOps
          /\ hist' = Append(hist, [a |-> "clear", args |-> [parts |-> 0, id |-> 0],
                                   req |-> [loaded |-> 0], impl |-> [loaded |-> Load(jar')]])
          /\ UNCHANGED <<n, cfg>>
-Next == (\E p \in 1..MaxParts, ct \in {"rand", "rep"}, who \in {"same", "other"} : Save(p, ct, who)) \/ Clear
+\* A request that LEFT the browser before the last save (a second tab, an image still loading: it presents the cookies the jar held before
+\* that save) is handled after it.  Whatever the proxy answers, the browser applies it - and the jar must afterwards still load the session
+\* that was saved last (nothing, after a clear): an answer to a stale presentation does not undo a save.
+InFlight == /\ Len(hist) < MaxOps /\ Len(hist) > 0
+            /\ hist[Len(hist)].a \in {"save", "clear"}
+            /\ Len(hist) >= 2                                   \* there was a jar before the last step
+            /\ hist' = Append(hist, [a |-> "inflight", args |-> [parts |-> 0, id |-> 0],
+                                     req |-> [loaded |-> last] @@ (IF last # 0 THEN [intact |-> TRUE] ELSE <<>>), impl |-> [loaded |-> Load(jar)]])
+            /\ UNCHANGED <<jar, last, n, cfg>>
+Next == (\E p \in 1..MaxParts, ct \in {"rand", "rep"}, who \in {"same", "other"} : Save(p, ct, who)) \/ Clear \/ InFlight
 
 \* ---- properties ----------------------------------------------------------------------------
 C10_RoundTrip == Load(jar) = last
